@@ -567,3 +567,77 @@ class LegacySweep:
             day += dt.timedelta(days=1)
         ctx.nontriv((pattern, case["first"]))
         ctx.state((pattern,))
+
+
+class ReleaseJobs:
+    """C17 through `update`: a chain of release jobs, each starting from the same pristine checkout, running
+    `update --no-commit` (or a committing update) and recording the release only as a VCS tag.  The BUILD numbers of the
+    releases must keep growing."""
+    name = "RELEASEJOBS/C17"
+
+    def total(self, tier):
+        return 300 if tier == "quick" else 20000
+
+    def deadline(self, tier):
+        return 170 if tier == "quick" else 1500
+
+    def gen(self, seed, index, tier):
+        rng = runner.rng_for(seed, self.name, index)
+        return {"pattern": rng.choice(["vYYYY.BUILD[-TAG]", "YYYY.BUILD", "MAJOR.MINOR.BUILD", "YYYY0M.BUILD[-TAG]"]),
+                "start": rng.choice(["1001", "1008", "1998", "0999", "22998", "0007"]), "jobs": rng.randint(3, 7),
+                "commit_cfg": rng.random() < 0.5, "flag": rng.choice(["--no-commit", "--no-commit", None]),
+                "scope": rng.choice([None, "global", "default"]), "ops": [{"op": "jobs"}]}
+
+    def run(self, case, ctx):
+        import os
+        from sim import fakevcs
+        pattern = case["pattern"]
+        tree = rp.tokenize(pattern)
+        clock = dt.date(2024, 2, 1)
+        st = rp.state_for_date(tree, clock, {"bid": case["start"], "tag": "final", "major": 1, "minor": 0})
+        st = {f: st.get(f) for f in rp.fields_of(tree)}
+        if "tag" in st and st["tag"] is None:
+            st["tag"] = "final"
+        text = rp.render(tree, st)
+        d = invoker.new_dir("rj")
+        scope_line = 'tag_scope = "%s"\n' % case["scope"] if case["scope"] else ""
+        cfg = ('[bumpver]\ncurrent_version = "%s"\nversion_pattern = "%s"\n%scommit = %s\ntag = false\npush = false\n\n'
+               '[bumpver.file_patterns]\n"bumpver.toml" = [\'current_version = "{version}"\']\n"a.txt" = ["ver {version} end"]\n'
+               % (text, pattern, scope_line, "true" if case["commit_cfg"] else "false"))
+        pristine = {"bumpver.toml": cfg.encode(), "a.txt": ("ver %s end\n" % text).encode()}
+        invoker.write_tree(d, pristine)
+        os.mkdir(os.path.join(d, ".git"))
+        repo = fakevcs.FakeRepo("git", remote=False)
+        repo.baseline(d)
+        argv = ["update", "--no-fetch"] + ([case["flag"]] if case["flag"] else [])
+        committing = case["commit_cfg"] and case["flag"] != "--no-commit"
+        prev = st["bid"]
+        ctx.sample = {"campaign": self.name, "pattern": pattern, "start": text, "argv": argv, "jobs": case["jobs"]}
+        for job in range(case["jobs"]):
+            res = invoker.invoke(d, argv, clock, fakevcs.VcsShim(repo), fakevcs.HookShim({}))
+            ctx.invocations += 1
+            new = res.log_value("New Version: ") if res.exit_code == 0 else None
+            ctx.event(job, res.exit_code, new)
+            if new is None:
+                ctx.violation("C17", "chain_broken", {"pattern": pattern}, "release job %d: `%s` exit %s (%s)" % (
+                    job, " ".join(argv), res.exit_code, res.exc or [m for _l, _n, m in res.logs][-2:]))
+                break
+            got = rp.recognise(tree, new)
+            if not got:
+                ctx.violation("C01", "announced_not_accepted", {"pattern": pattern}, "announced %r" % new)
+                break
+            nb = got[0]["bid"]
+            ctx.nontriv((pattern, case["start"], job, committing, case["scope"]))
+            if not int(nb) > int(prev):
+                ctx.violation("C17", "build_not_greater_int", {"pattern": pattern, "old": prev, "new": nb, "via": "release_jobs"},
+                              "release job %d produced BUILD %r after %r although tag %r exists (argv %s)" % (
+                                  job, nb, prev, sorted(repo.tags)[-1:] or None, argv))
+                break
+            prev = nb
+            # the job records the release as a tag and throws its checkout away
+            if new not in repo.tags:
+                repo.tags[new] = repo.head_commit()
+            if not committing:
+                invoker.write_tree(d, pristine)
+            clock += dt.timedelta(days=3)
+            ctx.probe("release_job_done")
